@@ -29,10 +29,10 @@ def closures(r):
         absent = DOWNLOADERS - {x["name"] for x in b["modules"]}
         if absent:
             def foreign(t):
-                if not t.startswith("build build/dl/"):
+                if not t.startswith("build "):
                     return False
                 parts = ninjaparse.canon(t[len("build "):].split(":", 1)[0].split(" ")[0]).split("/")
-                return len(parts) > 2 and parts[2] in absent
+                return len(parts) > 2 and parts[1] == "dl" and parts[2] in absent        # <build-dir>/dl/<downloader>/...
             cl = [t for t in cl if not foreign(t)]
         out[(b["builder"], b["app"])] = tuple(sorted(cl))
     return out
